@@ -84,6 +84,7 @@ pub fn c18_shared_one_timer() {
     vcover!(how == 1 && v > 0.0, "c18.shared1: positive duration");
     vcover!(how == 1 && v == 0.0, "c18.shared1: clock went backwards or stood still -> saturates at 0");
     std::mem::forget(h);
+    vcover!(true, "end of harness reached");
 }
 
 /// Two timers of one shared histogram: the first ends in a symbolic way, the second is ended
@@ -112,6 +113,7 @@ pub fn c18_shared_two_timers() {
     assert!(h.get_sample_sum() >= 0.0, "C18 recorded durations are non-negative");
     vcover!(h1 == 2, "c18.shared2: first discarded");
     std::mem::forget(h);
+    vcover!(true, "end of harness reached");
 }
 
 /// a timer of a local histogram ended in way `how` (concrete), then the local histogram is
@@ -145,23 +147,27 @@ fn local_timer_case_buffered(how: u8, flush_after: bool, buffered: bool) {
 pub fn c18_local_timer_recorded() {
     local_timer_case(0, false);
     local_timer_case(1, true);
+    vcover!(true, "end of harness reached");
 }
 /// Local timer started while the local histogram holds an unflushed observation, then recorded:
 /// the shared histogram ends with exactly the buffered observation plus the timer's.
 #[cfg_attr(kani, kani::proof, kani::unwind(5), kani::stub(std::time::Instant::now, instant_now_stub))]
 pub fn c18_local_timer_with_buffered_observation() {
     local_timer_case_buffered(1, false, true);
+    vcover!(true, "end of harness reached");
 }
 /// Same, timer discarded: only the buffered observation arrives.
 #[cfg_attr(kani, kani::proof, kani::unwind(5), kani::stub(std::time::Instant::now, instant_now_stub))]
 pub fn c18_local_timer_discarded_with_buffered_observation() {
     local_timer_case_buffered(2, true, true);
+    vcover!(true, "end of harness reached");
 }
 /// Local timer: stop_and_discard / dropped (clock symbolic).
 #[cfg_attr(kani, kani::proof, kani::unwind(5), kani::stub(std::time::Instant::now, instant_now_stub))]
 pub fn c18_local_timer_discarded_or_dropped() {
     local_timer_case(2, true);
     local_timer_case(3, false);
+    vcover!(true, "end of harness reached");
 }
 
 /// `observe_closure_duration` (shared and local): one observation, closure result passed through.
@@ -182,6 +188,7 @@ pub fn c18_observe_closure_duration() {
     assert!(h.get_sample_sum() >= 0.0, "C18 recorded durations are non-negative");
     std::mem::forget(l);
     std::mem::forget(h);
+    vcover!(true, "end of harness reached");
 }
 
 pub fn dispatch(name: &str) -> Option<fn()> {
